@@ -43,3 +43,13 @@ func VerifRewindEndpointBreaker(s *Service, endpoint string, d time.Duration) {
 		atomic.StoreInt64(&cb.lastFailure, x-int64(d))
 	}
 }
+
+// VerifCleanupPassAfter simulates "d passes without a new request" and then runs the periodic clean-up pass of the
+// engine (the 5-minute ticker's body) once: every pool's last-used stamp moves d into the past first.
+func VerifCleanupPassAfter(s *Service, d time.Duration) {
+	s.endpointPools.Range(func(_ string, p *connectionPool) bool {
+		atomic.AddInt64(&p.lastUsed, -int64(d))
+		return true
+	})
+	s.cleanupUnusedResources()
+}
